@@ -70,6 +70,7 @@ import argparse
 import collections
 import contextlib
 import functools
+import inspect
 import itertools
 import json
 import logging
@@ -357,6 +358,16 @@ class proxy( object ):
         responses.
 
         """
+        if inspect.isgeneratorfunction( function ):
+            # A generator performs its I/O while it is iterated, not when it is invoked; the gateway
+            # must be maintained (and discarded on any Exception) for as long as that takes.
+            @functools.wraps( function )
+            def wrapper( inst, *args, **kwds ):
+                with inst:
+                    for value in function( inst, *args, **kwds ):
+                        yield value
+            return wrapper
+
         @functools.wraps( function )
         def wrapper( inst, *args, **kwds ):
             with inst:
